@@ -604,6 +604,14 @@ func TestPanicBehaviour(t *testing.T) {
 			w.n = 0
 			l.Panic().Msg("second, rejected: must still panic")
 		}, true, 0},
+		{"Panic() whose event a hook discards", func() {
+			l := zerolog.New(w).Hook(zerolog.HookFunc(func(e *zerolog.Event, _ zerolog.Level, _ string) { e.Discard() }))
+			l.Panic().Str("k", "v").Msg("boom")
+		}, true, 0},
+		{"Panic() whose event a Func callback discards", func() {
+			l := zerolog.New(w)
+			l.Panic().Func(func(e *zerolog.Event) { e.Discard() }).Msg("boom")
+		}, true, 0},
 		{"Panic() on the zero-value Logger", func() {
 			var z zerolog.Logger // no writer at all: every event is filtered, Panic still panics
 			z.Panic().Msg("boom")
@@ -667,6 +675,9 @@ func child(c string) {
 		l := zerolog.New(io.Discard).Sample(&zerolog.BasicSampler{N: 2})
 		l.Info().Msg("takes the first slot")
 		l.Fatal().Msg("rejected by the sampler, must still exit")
+	case "fatal-discarded":
+		l := zerolog.New(os.Stdout).Hook(zerolog.HookFunc(func(e *zerolog.Event, _ zerolog.Level, _ string) { e.Discard() }))
+		l.Fatal().Msg("bye")
 	case "fatal-zero":
 		var z zerolog.Logger
 		z.Fatal().Msg("bye")
@@ -705,6 +716,7 @@ func TestFatalBehaviour(t *testing.T) {
 		{"fatal-sampled-second", 1, ""},
 		{"fatal-global", 1, ""},
 		{"fatal-zero", 1, ""},
+		{"fatal-discarded", 1, ""},
 		{"withlevel-fatal", 0, "SURVIVED"},
 		{"withlevel-fatal-filtered", 0, "SURVIVED"},
 		{"info-after-fatal-pool", 0, "SURVIVED"},
